@@ -1445,6 +1445,19 @@ func LastCrossover() (Conn, Conn) {
 	return s.lastX1, s.lastX2
 }
 
+// GroupMembers counts open sockets that joined a multicast group on the given port.
+//
+//go:norace
+func GroupMembers(port int) int {
+	n := 0
+	for c := st().udp; c != nil; c = c.next {
+		if !c.closed && c.group != "" && c.port == port {
+			n++
+		}
+	}
+	return n
+}
+
 // OpenSockets reports sockets created and still open in this run (leak probe).
 //
 //go:norace
